@@ -313,7 +313,42 @@ def root(x: f32[4, 12], y: f32[4, 12]):
 """
     return GenProgram(HEADER + text, "root", ["cp"], [], {"template": "window_forms", "prefer_ops": ["inline", "simplify", "unroll_loop"]})
 
-ALL = [t_negdiv, t_negdiv, t_window_chain, t_window_chain, t_scoped_allocs, t_const_windows, t_mixed_prec, t_mixed_prec, t_index_identities, t_index_identities, t_sibling_ranges, t_sibling_ranges, t_window_forms, t_window_forms]
+
+def t_name_nest(rng):
+    """after inlining, several live variables share one spelling in nested scopes (loop iterators
+    and scalar temporaries of caller, callee and callee's callee), next to user names spelled like
+    the backend's fallbacks (t_1, i_1): every C identifier must stay distinct from all live ones"""
+    v = _c(rng, ["i", "j"])
+    t = _c(rng, ["t", "s"])
+    arg = _c(rng, [t, t, "x"])          # caller buffer with the callee-local's spelling
+    spare = _c(rng, [f"{t}_1", f"{v}_1", f"{t}_2"])
+    text = f"""@proc
+def leaf(n: size, dst: [f32][n], src: [f32][n]):
+    for {v} in seq(0, n):
+        {t}: f32
+        {t} = src[{v}] * 2.0
+        dst[{v}] = {t}
+
+
+@proc
+def mid(n: size, dst: [f32][n], src: [f32][n]):
+    for {v} in seq(0, n):
+        {t}: f32
+        {t} = src[{v}] + 1.0
+        leaf(1, dst[{v}:{v} + 1], src[{v}:{v} + 1])
+        dst[{v}] += {t}
+
+
+@proc
+def root({arg}: f32[4], {spare}: f32[4], y: f32[4, 4]):
+    for {v} in seq(0, 4):
+        mid(4, y[{v}, 0:4], {arg})
+        for k in seq(0, 4):
+            {spare}[k] += y[{v}, k] + {arg}[k]
+"""
+    return GenProgram(HEADER + text, "root", ["leaf", "mid"], [], {"template": "name_nest", "op_sequence": ["inline", "inline"], "prefer_ops": ["inline", "inline", "inline_window", "unroll_loop"]})
+
+ALL = [t_negdiv, t_negdiv, t_window_chain, t_window_chain, t_scoped_allocs, t_const_windows, t_mixed_prec, t_mixed_prec, t_index_identities, t_index_identities, t_sibling_ranges, t_sibling_ranges, t_window_forms, t_window_forms, t_name_nest, t_name_nest]
 
 
 def any_ctemplate(rng):
